@@ -85,3 +85,7 @@
             v.size_or_min_size_spec() <= n
             && (v.fits_size() ==> forall|j: nat| #[trigger] bit_of(stored.val(), j) == (j < n && bit_of(v.val(), j)))
         }
+
+        /// ghost observation (C02): the encoding (value and size) that the most recent resolve_encoding call chose
+        /// as the smallest resolved one (recorded by that function's stub contract)
+        pub uninterp spec fn chosen_encoding(r: &diagn::Report) -> util::BigInt;
